@@ -23,3 +23,4 @@ LemmaFloatBounds = _reg(LF.LemmaFloatBounds, LF.LemmaFloatBounds.target)
 from contracts import C01_containers as CC  # noqa: E402
 ArrayDecode = _reg(CC.ArrayDecode, CC.ArrayDecode.target)
 ListDecode = _reg(CC.ListDecode, CC.ListDecode.target)
+ArrayDecodeAny = _reg(CC.ArrayDecodeAny, CC.ArrayDecodeAny.target)
